@@ -6,6 +6,7 @@ CONSTANTS
   Design = "repaired"
   MaxOps = 40
   NObj = 2
+  EMCopy = "deep"
   MaxEvals = 5
 SPECIFICATION PU_Spec
 
@@ -15,4 +16,5 @@ INVARIANT RunIsConsistent
 INVARIANT NoSharing
 INVARIANT ObjectsDosed
 PROPERTY Isolation
+PROPERTY EMIsolation
 INVARIANT EmitEvals
